@@ -379,6 +379,11 @@ TickP2P(gg, r) ==
       tsOn == gg.ts.on /\ gg.N = 2 /\ ok /\ r.run /\ r.t >= 1000000 + gg.ts.warmup
       other == 1 - p
       lead == r.cur - gg.pr[other].cur
+      \* C15: with no connected remote player left there is nobody to be ahead of (frames_ahead is refreshed at the
+      \* end of every successful call, after the connection statuses)
+      remH == {h \in 0..gg.NP-1 : gg.owner[h] # p}
+      noRemV == When(ok /\ r.run /\ ~gg.isSync[p] /\ Has(r, "fa") /\ remH # {} /\ (\A h \in remH : r.st[h+1][1]) /\ r.fa # 0,
+                     V("C15", r.n, "frames-ahead-without-connected-remote", <<p, r.fa>>))
       tsV == When(tsOn /\ (r.fa - lead > 2 \/ lead - r.fa > 2),
                   V("C15", r.n, "frames-ahead-differs-from-the-real-lead", <<p, r.fa, lead>>))
              \o When(tsOn /\ (r.fa + gg.pr[other].fa > 2 \/ r.fa + gg.pr[other].fa < -2),
@@ -469,7 +474,7 @@ TickP2P(gg, r) ==
                                                     THEN 1 ELSE 0),
                               !.waitArrivals = @ + (IF Has(r, "arr") THEN Len(r.arr) ELSE 0)]
   IN AddViol([g3 EXCEPT !.stats = st1],
-             acc.vs \o endV \o finV \o serV \o confV \o syncV \o expV \o tsV \o BufViol(gg, p, r) \o StatV(gg, p, pe0, r))
+             acc.vs \o endV \o finV \o serV \o confV \o syncV \o expV \o tsV \o noRemV \o BufViol(gg, p, r) \o StatV(gg, p, pe0, r))
 
 ---------------------------------------------------------------------------
 \* a `tick` line of a spectator session (C06)
